@@ -237,5 +237,6 @@ func runC03(cx *ctx) {
 					fmt.Sprintf("recipients=[%s] %s", labelsOf(ps), note), headerOracle(file))
 			})
 		}
-	}
+	}	// alterations the surgery above never performs (c03_extra.go)
+	c03Extra(cx)
 }
